@@ -197,6 +197,33 @@ def op_worker(args):
             got = parser._parse_constant(node)
         except llsym.PathEnd:
             raise
+        except pysym.Unmodelled as e:
+            # fall back to solver-chosen concrete models of this path (boundary-seeking), replayed on
+            # the real code against the C compiler; a reproduced difference is a violation, otherwise
+            # the path stays undecided
+            found = False
+            probes = [True]
+            for n in names:
+                for lo in (1 << 62, 1 << 53, 1 << 31):
+                    probes.append(env[n] > lo)
+                    probes.append(env[n] < -lo)
+            for extra in probes:
+                try:
+                    m = ex.sat(llsym.b_and(side, defined, extra))
+                except llsym.Unsupported:
+                    m = None
+                if m is None:
+                    continue
+                case = {n: hutil.mval(m, env[n]) for n in names}
+                ok, script = rp(case)
+                chk.query('%s:concrete-probe' % label, 'sat' if ok else 'agree', 0.0)
+                if ok:
+                    chk.report_failure('%s (path with unmodelled operation: %s): %s' % (label, e, case), {}, script, True)
+                    found = True
+                    break
+            if not found:
+                raise
+            return
         except (llsym.Unsupported, llsym.UnwindBound):
             raise
         except Exception as e:
